@@ -1549,9 +1549,8 @@ def run_history(kind, cap, auto, ops, tmp=None):
     env = jinja2.Environment(loader=loader, cache_size=cap, auto_reload=auto)
     ref = RefCache(cap, auto)
     for step, (op, arg) in enumerate(ops):
-        if op == "mod":
-            if src[arg] is None and kind == "fs":
-                pass
+        if op in ("mod", "old"):
+            # "old": the new content carries an OLDER mtime than the one loaded (restored backup / old checkout)
             src[arg] = next(counter)
             if kind == "dict":
                 mapping[arg] = f"{arg}{src[arg]}"
@@ -1559,7 +1558,8 @@ def run_history(kind, cap, auto, ops, tmp=None):
                 p = os.path.join(tmp, arg)
                 with open(p, "w") as f:
                     f.write(f"{arg}{src[arg]}")
-                os.utime(p, (1000 + src[arg], 1000 + src[arg]))
+                stamp = 1000 + src[arg] if op == "mod" else 1000 - src[arg]
+                os.utime(p, (stamp, stamp))
             continue
         if op == "del":
             src[arg] = None
@@ -1607,7 +1607,7 @@ def bounded_histories(task, tier, seed):
         for kind in (task.loader_kind,):
             d = depth if kind != "fs" else depth - 1
             for L_ in range(1, d + 1):
-                for ops in itertools.product(HIST_OPS, repeat=L_):
+                for ops in itertools.product(HIST_OPS + ([("old", "a")] if kind == "fs" else []), repeat=L_):
                     if ops[-1][0] not in ("get", "select"):
                         continue  # a history is only observed at a lookup
                     for cap in (0, 1, 2, -1):
@@ -1642,7 +1642,7 @@ def replay_history(w):
 
 HIST_BOUND = ("all histories of length <= 4 (thorough 5; FileSystemLoader one less) ending in a lookup over 2 names with get / select([a,b]) / "
               "select([b,a]) / modify / delete, cache sizes 0, 1, 2, unbounded, auto_reload on/off, on DictLoader, FunctionLoader (with and "
-              "without check) and FileSystemLoader (real files, forced mtime changes); rendered output and cache keys vs the reference model")
+              "without check) and FileSystemLoader (real files, forced mtime changes, both newer and OLDER than the loaded one); rendered output and cache keys vs the reference model")
 
 
 def hist_task(kind):
